@@ -443,6 +443,8 @@ class SpecMixin:
         if name == 'str':      # identity term of a string (for equalities on opaque strings)
             x = self.sev(env, args[0])
             return self.mapkey(env.st, x)
+        if name == 'key':      # key(v): the map-key identity of a value
+            return self.mapkey(env.st, self.sev(env, args[0]))
         if name == 'has':      # has(m, k): key present in map
             m = self.sev(env, args[0]); kx = self.mapkey(env.st, self.sev(env, args[1]))
             return z3.Select(m.dom, kx)
